@@ -11,6 +11,6 @@ if [ -z "${SKIPTEST:-}" ]; then
   (cd "$d" && go build ./... && go test -count=1 ./... 2>&1 | grep -v "no test files" | tr '\n' ' '; echo)
 fi
 for p in "$@"; do
-  VERIF_REPO="$d" VERIF_DUR="${VERIF_DUR:-}" /verif/check.sh "$p" quick 2>&1 | grep -E "VIOLATION|check=|INFRA|violation\(s\)" | cut -c1-250 | head -6
+  VERIF_REPO="$d" VERIF_DUR="${VERIF_DUR:-}" "$(cd "$(dirname "$0")/.." && pwd)/check.sh" "$p" quick 2>&1 | grep -E "VIOLATION|check=|INFRA|violation\(s\)" | cut -c1-250 | head -6
 done
 rm -rf "$d"
